@@ -671,6 +671,9 @@ impl<D: Device, P: Protocol, S: Socket, TS: TimeSource> GenericCloud<D, P, S, TS
                     timeout: TS::now() + self.config.peer_timeout as Time,
                 },
             );
+            // The new peer might time us out earlier than the currently scheduled peer list update
+            let interval = min(self.update_freq, max((self.peers[&addr].peer_timeout / 2).saturating_sub(60), 1));
+            self.next_peers = min(self.next_peers, TS::now() + Time::from(interval));
             self.update_peer_info(addr, Some(info))?;
         } else {
             error!("No init for new peer {}", addr_nice(addr));
